@@ -76,6 +76,11 @@ def type_of(interp, v, node=None):
     if v is None:
         return b["NoneType"]
     if isinstance(v, Ext):
+        q = v
+        while q is not None:
+            if getattr(q, "shared_cls", None) is not None and ".__class__" not in v.attrs:
+                return q.shared_cls  # variant: every object stored in this start-up list is of one class
+            q = q.parent
         return interp.ext_child(v, ".__class__", role="class")
     if isinstance(v, Sym):
         if v.kind == "str":
@@ -442,7 +447,7 @@ def make_builtins(interp):
         if isinstance(v, DictV):
             return len(v.items)
         if isinstance(v, ListOf):
-            return Sym(f"len({v.label or v.uid})", "num", tag=("len", v.uid), uid=v.uid)
+            return i.generic_len(v, n)  # the length every loop over this list uses on this path
         if isinstance(v, Ext):
             return Sym(f"len({v.path})", "num", tag=("len", v.uid), uid=v.uid)
         if isinstance(v, Obj):
@@ -606,9 +611,19 @@ def make_builtins(interp):
         if not isinstance(code, str):
             raise Unsupported(f"eval of a string that does not fold to a constant: {code!r}", n)
         g = a[1] if len(a) > 1 else None
-        if not isinstance(g, DictV):
-            raise Unsupported("eval without explicit globals dict", n)
         from .interp import Frame
+
+        if g is None:
+            # eval(src): globals of the calling module, locals of the calling frame (read-only view)
+            cur = i.frames[-1]
+            ns = dict(cur.module.ns)
+            for d in reversed(cur.closure):
+                ns.update(d)
+            if cur.func is not None:
+                ns.update(cur.locals)
+            g = DictV(ns)
+        if not isinstance(g, DictV):
+            raise Unsupported("eval with a globals argument that is not a plain dict", n)
 
         try:
             tree = ast.parse(code, mode="eval")
@@ -1471,6 +1486,8 @@ def instantiate_elem(interp, lo, idx):
             if getattr(t, "meta", None) is not None:
                 e.meta = t.meta
             e.template = t
+            if getattr(lo, "shared_cls", None) is not None:
+                e.shared_cls = lo.shared_cls  # variant: all elements (and what they hold) are instances of one class
             return e
         if isinstance(t, Sym):
             return Sym(f"{t.name}#{idx}", t.kind, t.tag)
